@@ -22,7 +22,8 @@ RULE = (
     "[-6,6] (thorough [-9,9]; None where the signature defaults to None; n != 0) x v in [-20,20] (thorough "
     "[-30,30]) - exhaustive; (b) Hypothesis: inputs of lo/li x selectors with 1-3 constraints (=literal, =env "
     "name, ~predicate) on focus and context variables at both stack levels, delivered to a plain probe and to "
-    "an overriding probe; plus selectors using one capture name at two call levels with the condition on "
+    "an overriding probe, in every other case after an unconditional probe on the focus was activated first and "
+    "deactivated first; plus selectors using one capture name at two call levels with the condition on "
     "the outer one. A (b) case is non-trivial when the filter both passes and rejects >=1 candidate "
     "event and a boundary value (v=start, v=end, v=k) occurs among the tested values; (a) evaluations are "
     "counted but only (b) cases enter distinct_nontrivial."
